@@ -620,6 +620,12 @@ func (x *Exec) callContract(f *frame, in ssa.Instruction, callee *ssa.Function, 
 		x.assumed["TRUSTED contract of "+funcKey(callee)] = true
 	}
 	// effects
+	if fc.Opts["yields"] != "" || (!fc.Trusted && !fc.Pure && bodyBlocks(callee)) {
+		// the callee blocks: other goroutines run meanwhile (monitors held here keep their fields)
+		x.abstract("call of a function that may block (yield point: heap havocked except fields of held monitors)")
+		x.yieldEffect(st, in)
+		pre = st.clone()
+	}
 	if fc.HasMod {
 		ents := x.modEntries(fc, callee, bind, pre)
 		// caller's own frame
@@ -950,6 +956,8 @@ func (x *Exec) chanSend(f *frame, in *ssa.Send) {
 	x.comp("Chan_closed", "(Array Int Bool)")
 	h := x.heapGet(st, "Chan_closed", "(Array Int Bool)")
 	x.safety(st, "chan", not(sx("select", h, ch)), in.Pos())
+	x.chanBounds(st, ch)
+	x.siteAssertions(st, in, "chansend", []Val{x.val(in.Chan), x.val(in.X)})
 	x.abstract("blocking channel send (yield point: heap havocked)")
 	x.yieldEffect(st, in)
 }
@@ -975,6 +983,11 @@ func (x *Exec) selectStmt(f *frame, in *ssa.Select) {
 	for i, s := range in.States {
 		ch := x.val(s.Chan).T
 		chosen := eq(idx, fmt.Sprint(i))
+		x.chanBounds(st, ch)
+		if s.Dir != types.SendOnly && !in.Blocking {
+			// the default case is taken only when no receive is ready: the buffers are empty
+			x.assume(st, implies(and(eq(idx, "(- 1)"), not(eq(ch, "0"))), eq(sx("select", hl, ch), "0")))
+		}
 		if s.Dir == types.SendOnly {
 			// a send on a closed channel panics if that case is chosen
 			x.safety(st, "chan", implies(chosen, not(sx("select", hc, ch))), in.Pos())
@@ -1003,4 +1016,38 @@ func (x *Exec) selectStmt(f *frame, in *ssa.Select) {
 		vs = append(vs, Val{T: x.havocValue(st, tu.At(i).Type(), "sel_r")})
 	}
 	x.vals[in] = Val{Tu: vs}
+}
+
+// chanBounds: the runtime keeps 0 <= len(ch) <= cap(ch) for every channel.
+func (x *Exec) chanBounds(st *State, ch Term) {
+	x.comp("Chan_len", "(Array Int Int)")
+	x.comp("Chan_cap", "(Array Int Int)")
+	hl := x.heapGet(st, "Chan_len", "(Array Int Int)")
+	hcap := x.heapGet(st, "Chan_cap", "(Array Int Int)")
+	x.assume(st, and(sx("<=", "0", sx("select", hl, ch)), sx("<=", sx("select", hl, ch), sx("select", hcap, ch))))
+	// len and cap of a nil channel are 0
+	x.assume(st, implies(eq(ch, "0"), eq(sx("select", hcap, ch), "0")))
+}
+
+// bodyBlocks: does the function's own body contain a blocking channel operation
+// (send, receive, blocking select)? Callers of such a function under contract
+// treat the call as a yield point.
+func bodyBlocks(fn *ssa.Function) bool {
+	for _, b := range fn.Blocks {
+		for _, in := range b.Instrs {
+			switch in := in.(type) {
+			case *ssa.Send:
+				return true
+			case *ssa.Select:
+				if in.Blocking {
+					return true
+				}
+			case *ssa.UnOp:
+				if in.Op == token.ARROW {
+					return true
+				}
+			}
+		}
+	}
+	return false
 }
